@@ -96,7 +96,7 @@ func checkC17(c *Ctx) error {
 	c.Cov["traces_validated_against_impl"] = len(keys)
 	c.Cov["cli_executions"] = cli
 	c.Cov["exhaustive"] = true
-	c.Cov["rule"] = fmt.Sprintf("the Scanner model is explored for every input of 1 or 3 lines (thorough: also 3 lines with two long lines and 5 lines) with one line of length class below/at/above/double/huge (65534, 65536, 65537, 131072, %d bytes) at every position; each behaviour is replayed for 9 consumers (generate entry, entry produced by definition expansion, include file, exclude file, include with suffix replacement, format, renumber-tests, update-copyright, rules file for update/compare) with and without final newline; exit 0 is accepted only when every line - in particular those after the long one - shows up in the result; non-trivial = the input has a line of 65536 bytes or more", huge)
+	c.Cov["rule"] = fmt.Sprintf("the Scanner model is explored for every input of 1 or 3 lines (thorough: also 3 lines with two long lines and 5 lines) with one line of length class below/at/above/double/huge (65534, 65536, 65537, 131072, %d bytes) at every position; each behaviour is replayed for 10 consumers (generate entry, entry produced by definition expansion, include file, exclude file, include with suffix replacement, format of entries, format of directive lines, renumber-tests, update-copyright, rules file for update/compare) with and without final newline; exit 0 is accepted only when every line - in particular those after the long one - shows up in the result; non-trivial = the input has a line of 65536 bytes or more", huge)
 	c.Summary = fmt.Sprintf("states=%d cases=%d cli=%d", st.Distinct, len(keys), cli)
 	return nil
 }
@@ -236,6 +236,29 @@ func scanReplay(c *Ctx, name string, sc scanCase, allowed map[string]bool, huge 
 		b, _ := os.ReadFile(root + "/regex-assembly/932100.ra")
 		if string(b) != fmtHeader+strings.Join(texts, "\n")+"\n" {
 			bad(fmt.Sprintf("format exits 0 but the file is not header + all %d lines (got %d bytes, want %d)", len(texts), len(b), len(fmtHeader)+len(strings.Join(texts, "\n"))+1))
+		}
+	case "fmtdirective":
+		// long lines are prefix lines: format recognises them, takes them apart and writes them back
+		ls := make([]string, len(texts))
+		for i, x := range texts {
+			if sc.Lines[i] == "short" {
+				ls[i] = x
+			} else {
+				ls[i] = "##!^ " + x
+			}
+		}
+		raw := fmtHeader + strings.Join(ls, "\n") + "\n"
+		t["regex-assembly/932100.ra"] = raw
+		writeTree(root, t)
+		r := run("regex", "format", "932100")
+		if loud(r, "format") {
+			if b, _ := os.ReadFile(root + "/regex-assembly/932100.ra"); string(b) != raw {
+				bad("format failed but modified the file")
+			}
+			return
+		}
+		if b, _ := os.ReadFile(root + "/regex-assembly/932100.ra"); string(b) != raw {
+			bad(fmt.Sprintf("format exits 0 but the formatted file (already canonical) changed: %d bytes, was %d", len(b), len(raw)))
 		}
 	case "renumber":
 		ls := make([]string, len(texts))
